@@ -210,6 +210,9 @@ def check_bridge(ctx, workspaces, built=None, per_file=True, chunk=60):
                     p, (o.get("ast") or o.get("noncore"))[:300], fs[:300])]})
             elif [tuple(e) for e in o["perrs"]] != [tuple(e) for e in pe]:
                 res["disagreements"].append({"workspace": w, "what": ["parse errors of %s differ (core)" % p]})
+            elif not o.get("complete", True) and not o["perrs"]:
+                # error-free parse of a Core file that is not locally complete (Bridge_complete_is_core's converse half)
+                res.setdefault("errfree_incomplete", []).append(p)
     return res
 
 
@@ -247,4 +250,25 @@ def check_pipeline(ctx, workspaces, built=None, chunk=60):
             res["identifier_queries"] += len(re.findall(r"\(id ", a["ast"]))
             if bad:
                 res["disagreements"].append({"workspace": w, "what": bad[:5]})
+    return res
+
+
+def check_complete(ctx, workspaces, built=None):
+    """Local completeness (coq/model/TreeComplete.v) on every file, parsed alone by the MODEL parser:
+    (i) tree_complete => the bridge returns a Core AST (theorem Bridge_complete_is_core, re-observed);
+    (ii) a parse without errors is locally complete, except for the semantic refusal "negative bits length"
+         (NOT a theorem: the grammar-level half; a counterexample here is a finding about the grammar or the bridge)."""
+    _bindir, exe = built or build()
+    items = [(0, [], t) for w in workspaces for t in w["files"].values()]
+    res = {"files": 0, "complete": 0, "error_free": 0, "violations": []}
+    for (f, l, t), o in zip(items, bridge_core(exe, items)):
+        if o.get("parse") or o.get("error"):
+            continue
+        res["files"] += 1
+        res["complete"] += bool(o["complete"])
+        res["error_free"] += not o["perrs"]
+        if o["complete"] and o["ast"] is None:
+            res["violations"].append({"text": t, "what": "complete but refused: %s" % o["noncore"]})
+        if not o["perrs"] and not o["complete"] and o["noncore"] != "negative bits length":
+            res["violations"].append({"text": t, "what": "error-free parse, not locally complete: %s" % o["noncore"]})
     return res
